@@ -460,6 +460,10 @@ func (s *Sim) val(fr *frame, t *Trace, v ssa.Value) string {
 		return r
 	case *ssa.Phi:
 		return "phi:" + x.Name()
+	case *ssa.TypeAssert:
+		r := "assert[" + typeShort(x.AssertedType) + "](" + s.val(fr, t, x.X) + ")"
+		fr.regs[v] = r
+		return r
 	case *ssa.MakeClosure:
 		return "closure:" + s.P.FuncName(x.Fn.(*ssa.Function))
 	case *ssa.Function:
